@@ -62,10 +62,17 @@ def norm(node):
 class Func:
     def __init__(self, qual, node, module, cls, parent):
         self.qual = qual  # e.g. channel.HTTPChannel.service
-        self.node = node
         self.module = module
         self.cls = cls  # Class or None
         self.parent = parent  # enclosing Func for closures
+        self.nested = {}  # name -> Func
+        self.rebind(node)
+
+    def rebind(self, node):
+        """(Re)attach the function to an AST (used when the program is rewritten into normal form)."""
+        self.node = node
+        for k in ("_cfg", "_lex_tbl", "_stmt_index"):
+            self.__dict__.pop(k, None)
         self.name = node.name
         a = node.args
         self.params = [x.arg for x in a.posonlyargs + a.args]
@@ -87,7 +94,6 @@ class Func:
         self.is_generator = any(
             isinstance(n, (ast.Yield, ast.YieldFrom)) for n in walk_own(node)
         )
-        self.nested = {}  # name -> Func
 
     @property
     def file(self):
@@ -414,11 +420,155 @@ class Program:
                     del s[0]
 
     # ------------------------------------------------------------------
-    def func(self, qual):
+    def func(self, qual, raw=False):
         f = self.functions.get(qual)
         if f is None:
             raise AnalysisError("anchor vanished: function %s" % qual)
         return f
+
+    def reference_names(self):
+        t = getattr(self, "_refnames", None)
+        if t is None:
+            import json
+            import os
+            path = os.path.join(os.path.dirname(os.path.abspath(__file__)), "reference_names.json")
+            try:
+                with open(path, encoding="utf-8") as fh:
+                    t = json.load(fh)
+            except OSError:
+                t = {}
+            self._refnames = t
+        return t
+
+    def normalise(self, anchor_names):
+        """Rewrite every function into the normal form the rules are written
+        against (inline.py): unknown private helpers inlined, locals given the
+        reference tree's names, new temporaries / condition flags / stable
+        aliases substituted, reference temporaries restored.  Every step is
+        behaviour-preserving.  Must run before any analysis caches anything."""
+        if getattr(self, "_normalised", False):
+            return
+        self._normalised = True
+        from .inline import alpha_normalise, expand_condition_locals, inline_new_temps, inlined, outline_reference_temps
+        anchor_names = frozenset(anchor_names)
+        self.inline_anchors = anchor_names
+
+        def pred(callee):
+            n = callee.name
+            return n.startswith("_") and not n.startswith("__") and n not in anchor_names
+        tab = self.reference_names()
+        self.normal_form_log = {}
+        # innermost functions first, so a parent is copied with its closures already rewritten
+        order = sorted(self.functions.values(), key=lambda f: -f.qual.count("."))
+        for f in order:
+            f.raw_node = getattr(f, "raw_node", f.node)
+        for f in order:
+            nf = inlined(self, f, pred=pred)
+            nf, ren = alpha_normalise(nf, tab)
+            keep = set(tab.get(f.qual, {}).get("keys", {}).values())
+            if f.qual in tab:
+                nf = inline_new_temps(nf, keep)
+                nf = outline_reference_temps(nf, tab[f.qual]["keys"])
+            nf = expand_condition_locals(nf, self.stable_attr, keep)
+            if nf is f:
+                continue
+            self.normal_form_log[f.qual] = {"inlined": list(getattr(nf, "inlined_from", [])), "renamed": dict(ren)}
+            self._replace_node(f, nf.node)
+        # helpers whose every use was expanded are dead code now
+        expanded = {q for v in self.normal_form_log.values() for q in v["inlined"]}
+        for q in sorted(expanded):
+            h = self.functions.get(q)
+            if h is None or h.parent is not None:
+                continue
+            used = False
+            for m in self.modules.values():
+                for n in ast.walk(m.tree):
+                    if (isinstance(n, ast.Name) and n.id == h.name) or (isinstance(n, ast.Attribute) and n.attr == h.name) \
+                            or (isinstance(n, ast.Constant) and n.value == h.name) or (isinstance(n, ast.alias) and n.name == h.name):
+                        used = True
+                        break
+                if used:
+                    break
+            if used:
+                continue
+            del self.functions[q]
+            for k in [k for k in self.functions if k.startswith(q + ".")]:
+                del self.functions[k]
+            if h.cls is not None:
+                h.cls.methods.pop(h.name, None)
+                if h.node in h.cls.node.body:
+                    h.cls.node.body.remove(h.node)
+            else:
+                h.module.functions.pop(h.name, None)
+                if h.node in h.module.tree.body:
+                    h.module.tree.body.remove(h.node)
+                if h.node in h.module.toplevel:
+                    h.module.toplevel.remove(h.node)
+            self.normal_form_log.setdefault(q, {})["removed"] = True
+
+    def _replace_node(self, f, new):
+        old = f.node
+        containers = []
+        if f.parent is not None:
+            containers.append(f.parent.node)
+        elif f.cls is not None:
+            containers.append(f.cls.node)
+        else:
+            containers.append(f.module.tree)
+        done = False
+        for c in containers:
+            for n in ast.walk(c):
+                for fld in ("body", "orelse", "finalbody"):
+                    lst = getattr(n, fld, None)
+                    if isinstance(lst, list):
+                        for i, x in enumerate(lst):
+                            if x is old:
+                                lst[i] = new
+                                done = True
+        if f.parent is None and f.cls is None:
+            tl = f.module.toplevel
+            for i, x in enumerate(tl):
+                if x is old:
+                    tl[i] = new
+        f.rebind(new)
+        # closures of f now live inside the copy
+        raw_to_func = {}
+
+        def collect(g):
+            for h in g.nested.values():
+                raw_to_func[id(h.raw_node)] = h
+                collect(h)
+        collect(f)
+        if raw_to_func:
+            for n in ast.walk(new):
+                if isinstance(n, (ast.FunctionDef, ast.AsyncFunctionDef)) and n is not new:
+                    o = getattr(n, "_orig", n)
+                    h = raw_to_func.get(id(o))
+                    if h is not None:
+                        h.rebind(n)
+        return done
+
+    def stable_attr(self, attr):
+        """Attribute name never re-bound outside a constructor anywhere in the
+        package (so `x = obj.attr` aliases the same object for good)."""
+        reb = getattr(self, "_rebound", None)
+        if reb is None:
+            reb = set()
+            for f in self.functions.values():
+                if f.name == "__init__":
+                    continue
+                for n in walk_own(f.node):
+                    if isinstance(n, ast.Attribute) and isinstance(n.ctx, (ast.Store, ast.Del)):
+                        reb.add(n.attr)
+                    elif isinstance(n, ast.Call) and isinstance(n.func, ast.Name) and n.func.id in ("setattr", "delattr"):
+                        reb.add("*")
+                    elif isinstance(n, ast.Attribute) and n.attr == "__dict__":
+                        reb.add("*")
+            self._rebound = reb
+        return "*" not in reb and attr not in reb
+
+    def enable_inlining(self, anchor_names):
+        self.normalise(anchor_names)
 
     def cls(self, qual):
         c = self.classes.get(qual)
